@@ -51,6 +51,7 @@ def contents(rnd, span, n_rand, full16):
            b"\x7f\x80\x00\x00"[:span].ljust(span, b"\x00"), b"\xff\x80\x00\x00"[:span].ljust(span, b"\x00"),
            b"\x7f\xc0\x00\x00"[:span].ljust(span, b"\x00")]
     if span == 6:
+        bnd += [bytes([y, rnd.randrange(1, 13), rnd.randrange(1, 29), rnd.randrange(24), rnd.randrange(60), rnd.randrange(60)]) for y in range(256)]
         bnd += [bytes([24, 5, 17, 12, 30, 15]), bytes([0, 1, 1, 0, 0, 0]), bytes([99, 12, 31, 23, 59, 59]), bytes([24, 2, 30, 0, 0, 0]),
                 bytes([24, 13, 1, 0, 0, 0]), bytes([24, 1, 1, 24, 0, 0])]
     for b in bnd:
